@@ -1170,6 +1170,76 @@ func c01Many(n int, probes []int) c01Case {
 	return c01Case{"many-state-rules", rules, hist}
 }
 
+// c01StateHistoryCases: the answer for an event must not depend on the events matched before
+// it on the same index.  Rule sets whose state leaf has a rule with a regex requirement on one
+// key and plain requirements on other keys, plus a rule that keeps the leaf's candidate mask
+// non-zero; histories are the ordered pairs and some triples of the events {value the regex
+// matches / does not match} x {other keys as required / different}.  The engine visits the
+// state keys in Go's map order, so every case is emitted several times (a fresh index each).
+func c01StateHistoryCases(repeat int) []c01Case {
+	var cs []c01Case
+	type variant struct {
+		rx       int // regex id
+		hit, mis int // ids of strings the regex matches / does not match
+	}
+	for _, v := range []variant{{1, 1, 4}, {0, 2, 1}, {2, 3, 4}} {
+		for shape := 0; shape < 3; shape++ {
+			var rules []c01Rule
+			switch shape {
+			case 0:
+				rules = []c01Rule{
+					c01Rl(1, []string{"a.b"}, []c01KV{{1, c01Rx(v.rx)}, {2, c01Num(1)}, {3, c01Num(1)}}, true),
+					c01Rl(2, []string{"a.b"}, []c01KV{{1, c01Null()}}, true)}
+			case 1:
+				rules = []c01Rule{
+					c01Rl(1, []string{"a.b"}, []c01KV{{1, c01Rx(v.rx)}, {2, c01Num(1)}}, true),
+					c01Rl(2, []string{"a.b"}, []c01KV{{2, c01Null()}}, true),
+					c01Rl(3, []string{"a.b"}, []c01KV{{1, c01Rx(3)}, {3, c01Num(2)}}, true)}
+			default:
+				rules = []c01Rule{
+					c01Rl(1, []string{"a.*"}, []c01KV{{1, c01Rx(v.rx)}, {2, c01Val{"str", v.hit}}}, true),
+					c01Rl(2, []string{"a.*"}, []c01KV{{1, c01Null()}, {2, c01Null()}}, true)}
+			}
+			mkEv := func(name int, hit, same bool) c01Event {
+				s := v.mis
+				if hit {
+					s = v.hit
+				}
+				if shape == 2 {
+					o := c01Val{"str", v.hit}
+					if !same {
+						o = c01Val{"str", v.mis}
+					}
+					return c01Ev(name, "a.b", c01AllowAll, c01KV{1, c01Val{"str", s}}, c01KV{2, o})
+				}
+				o := 1
+				if !same {
+					o = 2
+				}
+				return c01Ev(name, "a.b", c01AllowAll, c01KV{1, c01Val{"str", s}}, c01KV{2, c01Num(o)}, c01KV{3, c01Num(o)})
+			}
+			var evs []c01Event
+			for i, hs := range [][2]bool{{false, false}, {false, true}, {true, false}, {true, true}} {
+				evs = append(evs, mkEv(i+1, hs[0], hs[1]))
+			}
+			var hists [][]c01Event
+			for i := range evs {
+				for j := range evs {
+					hists = append(hists, []c01Event{evs[i], evs[j]})
+				}
+			}
+			hists = append(hists, []c01Event{evs[0], evs[1], evs[3], evs[2]}, []c01Event{evs[3], evs[2], evs[1], evs[0]},
+				[]c01Event{evs[2], evs[3], evs[0], evs[1]}, []c01Event{evs[0], evs[0], evs[1], evs[1], evs[3]})
+			for _, h := range hists {
+				for r := 0; r < repeat; r++ {
+					cs = append(cs, c01Case{"state-history", rules, h})
+				}
+			}
+		}
+	}
+	return cs
+}
+
 func c01RandomCase(c *Ctx) c01Case {
 	rng := c.Rng
 	segs := []string{"a", "b", "c", "*"}
@@ -1292,7 +1362,7 @@ func runC01(c *Ctx) error {
 	if f := os.Getenv("C01_CONC_CHILD"); f != "" {
 		return c01ConcChild(f)
 	}
-	c.Rule = "concurrent: rule sets with k = 1..7 wildcard rules on one pattern followed by exact / state / suppressing rules, and random rule sets, each with RuleIndex.Match called from 8 goroutines on one index (every result against the sequential one) and with 4, 8 and 16 workers while every event of the history is added many times from 4 goroutines without waiting (per event every distinct observed outcome is compared with Spec.fires); sequential: " + "rule sets x event histories. corpus: the witnesses of the repaired defects (shared event name, two patterns of one rule, 64/65 state rules on one pattern, list/map values) and tricky inputs (NULL, missing key, nil value, regexes, empty state map, empty kind, scope prefixes, suppression chains); exhaustive-1: every single rule with 1-2 kind patterns of depth <=2 over {a,*} and every state requirement over 2 keys x {absent,NULL,1} (210 rules) against all 54 events (kinds of depth <=2 over {a,b}, 2 keys x {absent,1,2}); exhaustive-2 (and -3 in the thorough tier): all ordered pairs (quick tier: one of two suppression/scope variants per pair; thorough: both, plus a third of all triples) of 24 small rule shapes, with and without suppression + scope, against 12 events under two scopes; many-state-rules: 60-70 state rules on one kind pattern; random: 1-6 rules, 1-3 patterns of depth 1-3 over {a,b,c,*,''}, state over {NULL,number,string,bool,regex,list,map}, scopes, suppression lists, priorities, histories of 3-8 events with shared names, every event under its own scope definitions; each history with 1, 2 and 8 workers; non-trivial = some event of the history is matched by some rule; distinct by the whole case"
+	c.Rule = "concurrent: rule sets with k = 1..7 wildcard rules on one pattern followed by exact / state / suppressing rules, and random rule sets, each with RuleIndex.Match called from 8 goroutines on one index (every result against the sequential one) and with 4, 8 and 16 workers while every event of the history is added many times from 4 goroutines without waiting (per event every distinct observed outcome is compared with Spec.fires); sequential: " + "rule sets x event histories. corpus: the witnesses of the repaired defects (shared event name, two patterns of one rule, 64/65 state rules on one pattern, list/map values) and tricky inputs (NULL, missing key, nil value, regexes, empty state map, empty kind, scope prefixes, suppression chains); exhaustive-1: every single rule with 1-2 kind patterns of depth <=2 over {a,*} and every state requirement over 2 keys x {absent,NULL,1} (210 rules) against all 54 events (kinds of depth <=2 over {a,b}, 2 keys x {absent,1,2}); exhaustive-2 (and -3 in the thorough tier): all ordered pairs (quick tier: one of two suppression/scope variants per pair; thorough: both, plus a third of all triples) of 24 small rule shapes, with and without suppression + scope, against 12 events under two scopes; many-state-rules: 60-70 state rules on one kind pattern; state-history: 3 regexes x 3 rule-set shapes (a rule with a regex requirement on one key and plain requirements on others, rules keeping the leaf's mask non-zero) x all ordered pairs and four longer histories of the events {regex matches / does not} x {other keys as required / different}, each several times on a fresh index (the engine visits state keys in map order); random: 1-6 rules, 1-3 patterns of depth 1-3 over {a,b,c,*,''}, state over {NULL,number,string,bool,regex,list,map}, scopes, suppression lists, priorities, histories of 3-8 events with shared names, every event under its own scope definitions; each history with 1, 2 and 8 workers; non-trivial = some event of the history is matched by some rule; distinct by the whole case"
 
 	// shared event universes of the exhaustive streams
 	kv := func(k, n int) c01KV { return c01KV{k, c01Num(n)} }
@@ -1401,6 +1471,20 @@ func runC01(c *Ctx) error {
 		}
 		c01One(c, c01Many(n, []int{0, 1, 31, 62, 63, 64, 65, n - 1}), "")
 	}
+
+	// 2b. state histories (regex requirements next to plain ones; the same value seen again
+	// under other keys)
+	shc := c01StateHistoryCases(c.Pick(2, 6))
+	for i, d := range shc {
+		if stop() {
+			return nil
+		}
+		if !c.Thorough() && (i/2+int(c.Seed))%3 != 0 {
+			continue // quick tier: a rotating third
+		}
+		c01One(c, d, "")
+	}
+	c.Extra["state_history_cases"] = len(shc)
 
 	// 3. exhaustive-1
 	pats := []string{"a", "*", "a.a", "a.*", "*.a", "*.*"}
